@@ -1,7 +1,7 @@
 #![allow(non_camel_case_types, non_snake_case, dead_code)]
 #[tarpc::service]
 pub trait Rej50 {
-    async fn r#fn(a0: i32, a1: String);
-    async fn serve(a0: i32, a1: i32) -> i32;
+    async fn r#fn(a0: i32, a1: String) -> i32;
+    async fn serve(a0: i32);
 }
 fn main() {}
